@@ -280,6 +280,8 @@ def arr_close(a, b, tol, margin=1.0):
 
 
 def worst(a, b, tol):
+    if np.shape(a) != np.shape(b):
+        return float('inf')
     with np.errstate(all='ignore'):
         r = np.abs(np.asarray(a, float) - np.asarray(b, float)) / np.where(tol > 0, tol, 1e-300)
     r = np.where(np.isnan(r), 0, r)
@@ -525,6 +527,13 @@ def check_models(ctx, P, prepared, stream=None):
                     ctx.disagree(stream, jsonable_case(cfg, it), impl[0], model[0], 'exception class')
             continue
         lv = it['levels']
+        if np.ndim(impl[2]) != 2 or np.shape(impl[2])[1] != len(lv):
+            # one column per requested level, in the order requested (repeated levels included)
+            if nfail < MAX_FAILS:
+                nfail += 1
+                ctx.fail(stream, dict(sig, kind='shape'), jsonable_case(cfg, it), observed=dict(shape=list(np.shape(impl[2]))),
+                         expected=dict(columns=len(lv), levels=lv), oracle='one interval column per requested level')
+            continue
         ob, tol, point, ptol, info = oracle_bounds(fit, mode, it['term'], it['Xrows'], lv)
         ctx.count('kappa(var)', '1e%d' % int(min(30, math.log10(max(info['kappa'], 1)))) if math.isfinite(info['kappa']) else 'inf')
         if info['noisy']:
